@@ -121,38 +121,26 @@ def enum_method_results(ctx, tbl, fn, inputs):
     from ..consteval import UNKNOWN, ClassRef, FuncRef
 
     members = {k: v for k, v in ctx.folder.enum_members(tbl).items() if not isinstance(v, FuncRef)}
-    by_name = {k.lower(): v for k, v in members.items()}
-    vk = ctx.folder.class_attr(tbl, "_value_key_")
-    rev = {}
-    for name, v in members.items():
-        key = v
-        if isinstance(vk, FuncRef) and isinstance(v, ClassRef):
-            rets = [r for r in walk(vk.node) if isinstance(r, ast.Return)]
-            p = vk.node.args.args[0].arg if isinstance(vk.node, ast.FunctionDef) and vk.node.args.args else None
-            if len(rets) == 1 and p and (attr_path(rets[0].value) or "").startswith(p + "."):
-                key = ctx.folder.class_attr(v.ci, attr_path(rets[0].value)[len(p) + 1:])
-            else:
-                key = UNKNOWN
-        if key is not UNKNOWN and not isinstance(key, (ClassRef, FuncRef)):
-            try:
-                rev.setdefault(key, name)
-            except TypeError:
-                pass
+    by_name, rev = ctx.folder.enum_tables(tbl)
     param = fn.args.args[1].arg if len(fn.args.args) > 1 else None
 
     def lookup(k, default=None):
-        if isinstance(k, str):
-            return by_name.get(k.lower(), default)
-        try:
-            return rev.get(k, default)
-        except TypeError:
-            return default
+        return ctx.folder.enum_lookup(tbl, k, default)
 
     def ev(e, env):
-        if isinstance(e, ast.Call) and attr_path(e.func) in ("cls.get",) and 1 <= len(e.args) <= 2:
-            k = ev(e.args[0], env)
-            d = ev(e.args[1], env) if len(e.args) == 2 else None
-            return UNKNOWN if k is UNKNOWN else lookup(k, d)
+        if isinstance(e, ast.Call) and isinstance(e.func, ast.Attribute) and e.func.attr == "get" and 1 <= len(e.args) <= 2 and not e.keywords:
+            recv = e.func.value
+            target = tbl if attr_path(recv) == "cls" else None
+            if target is None:
+                rv = ctx.folder.eval(recv, tbl.module, env=env)
+                if isinstance(rv, ClassRef) and rv.ci.has_base_named("EnumMap"):
+                    target = rv.ci
+            if target is not None:
+                k = ev(e.args[0], env)
+                d = ev(e.args[1], env) if len(e.args) == 2 else None
+                if k is UNKNOWN or d is UNKNOWN:
+                    return UNKNOWN
+                return ctx.folder.enum_lookup(target, k, d)
         if isinstance(e, ast.Subscript) and attr_path(e.value) == "cls":
             k = ev(e.slice, env)
             if k is UNKNOWN:
